@@ -224,7 +224,10 @@ def render_package(spec, pkgname, modpath, other_pkg=None):
         if n.kind == BIND:
             tk = n.target
             tn = nodes[tk]
-            recv = '*' + nm.tname(tk) if tn.ptr else nm.tname(tk)
+            if tn.kind == FIELD:
+                recv = nm.comp_tname(tn.parent, tn.fieldno)
+            else:
+                recv = '*' + nm.tname(tk) if tn.ptr else nm.tname(tk)
             w('func (x %s) VID() int { return x.ID }\n' % recv)
     w('\n'.join(helpers) + '\n')
     # ---- provider functions
@@ -294,6 +297,8 @@ def render_package(spec, pkgname, modpath, other_pkg=None):
             return 'wire.FieldsOf(new(%s), "F%d")' % (pt, n.fieldno)
         if n.kind == BIND:
             tn = nodes[n.target]
+            if tn.kind == FIELD:
+                return 'wire.Bind(new(%s%s), new(%s%s))' % (qual, nm.iname(k), qual, nm.comp_tname(tn.parent, tn.fieldno))
             return 'wire.Bind(new(%s%s), new(%s%s%s))' % (qual, nm.iname(k), '*' if tn.ptr else '', qual, nm.tname(n.target))
         raise ValueError(n.kind)
 
@@ -452,6 +457,8 @@ def family_kinds():
             S([Node(FUNC, deps=[(1, 'val'), (2, 'val'), (4, form)]), Node(FUNC, deps=[(3, 'val')], has_err=True), Node(FUNC, deps=[(3, 'val')], has_cleanup=True),
                Node(BIND, target=4), tgt], (0, 'val'), 'binding to %s ptr=%s, I consumed twice, C once' % (tkind, tptr))
             S([Node(BIND, target=1), tgt], (0, 'val'), 'binding is the result, to %s ptr=%s' % (tkind, tptr))
+    # a binding whose concrete type is provided by FieldsOf in the same set
+    S([Node(FUNC, deps=[(1, 'val')]), Node(BIND, target=2), Node(FIELD, parent=3, fieldno=1), Node(ARG, ncomp=2)], (0, 'val'), 'binding to a field-provided type (same set)')
     # fields of an argument / value / function result, value and pointer struct, value and pointer-to-field consumers
     for pkind in ('arg', 'value', 'func'):
         for pptr in (False, True):
@@ -695,9 +702,14 @@ def family_reject():
         (['C12'], 'unknown field name', 'S', 'NewA, wire.Struct(new(S), "Nope")'),
         (['C12'], 'field name differing only in case from an existing field', 'S', 'NewA, wire.Struct(new(S), "a")'),
         (['C07'], 'cycle', 'CycA', 'NewCycA, NewCycB'),
+        (['C09'], 'two parameters of identical type spelled byte / uint8', 'B', 'NewA, NewSpelled'),
+        (['C09'], 'two struct fields of identical type spelled differently (func types differing in parameter names)', 'Hooks', 'wire.Struct(new(Hooks), "*"), wire.Value(func(req string) error { return nil })'),
+        (['C11'], 'interface bound to an interface that does not implement it', 'I', 'NewJ, wire.Bind(new(I), new(J))'),
+        (['C08'], 'two inline sets, one of them unused', 'A', 'wire.NewSet(NewA), wire.NewSet(NewC)'),
+        (['C08'], 'unused field provider', 'A', 'NewA, wire.Value(S{}), wire.FieldsOf(new(S), "Name")'),
         (['C09'], 'provider without results', 'A', 'NewA, NoResult'),
     ]
-    extra = 'type CycA struct{}\ntype CycB struct{}\nfunc NewCycA(b CycB) CycA { return CycA{} }\nfunc NewCycB(a CycA) CycB { return CycB{} }\nfunc NoResult() {}\n'
+    extra = 'type J interface{ Other() }\ntype jimpl struct{}\nfunc (jimpl) Other() {}\nfunc NewJ() J { return jimpl{} }\nfunc NewSpelled(lo uint8, hi byte) B { return B{} }\ntype Hooks struct {\n\tBefore func(req string) error\n\tAfter  func(resp string) error\n}\ntype CycA struct{}\ntype CycB struct{}\nfunc NewCycA(b CycB) CycA { return CycA{} }\nfunc NewCycB(a CycA) CycB { return CycB{} }\nfunc NoResult() {}\n'
     for c in cases:
         props, lab, rty, items = c[0], c[1], c[2], c[3]
         args = c[4] if len(c) > 4 else ''
@@ -782,6 +794,18 @@ def family_frontend():
                                 'func NewCfg() Cfg {\n\tid, _ := vrt.Call(2, false)\n\treturn Cfg{ID: id}\n}\n\nfunc NewDB(c Cfg) (DB, func()) {\n\tid, _ := vrt.Call(1, false, c.ID)\n\treturn DB{ID: id}, vrt.CleanupFn(1)\n}\n\n'
                                 'func NewDBPlain() DB {\n\tid, _ := vrt.Call(4, false)\n\treturn DB{ID: id}\n}\n\nvar Inner = wire.NewSet(NewCfg)\nvar Set = wire.NewSet(Inner, NewDB)\n')}}
     specs.append(RawSpec(files, 'three injectors sharing named sets: alias of a set, set of another package nesting a set, Build in panic() and as statement', family='frontend', extra_pkgs=extra))
+    # --- several provider-set variables declared in one var spec
+    files = {
+        'providers.go': ('package {PKG}\n\nimport (\n\t"example.com/corpus/vrt"\n\t"github.com/google/wire"\n)\n\ntype A struct{ ID int }\ntype B struct{ ID int }\ntype R struct{ ID int }\n\n'
+                         'func NewA() A {\n\tid, _ := vrt.Call(1, false)\n\treturn A{ID: id}\n}\n\nfunc NewB() B {\n\tid, _ := vrt.Call(2, false)\n\treturn B{ID: id}\n}\n\n'
+                         'func NewR(b B) R {\n\tid, _ := vrt.Call(0, false, b.ID)\n\treturn R{ID: id}\n}\n\nvar SetA, SetB = wire.NewSet(NewA), wire.NewSet(NewB)\n\nvar (\n\tSetC, SetD, SetE = wire.NewSet(NewA), wire.NewSet(NewA), wire.NewSet(NewB, NewR)\n)\n'),
+        'wire.go': ('//go:build wireinject\n// +build wireinject\n\npackage {PKG}\n\nimport "github.com/google/wire"\n\n'
+                    'func Inject() R {\n\tpanic(wire.Build(SetB, NewR))\n}\n\nfunc Inject2() R {\n\tpanic(wire.Build(SetE))\n}\n'),
+        'zz_driver.go': ('//go:build !wireinject\n// +build !wireinject\n\npackage {PKG}\n\nimport "example.com/corpus/vrt"\n\nfunc VDrive() {\n'
+                         '\tfor which := 0; which < 2; which++ {\n\t\tspec := &vrt.Spec{Nodes: []vrt.Node{{Name: "NewR", Kind: vrt.KFunc, Params: []vrt.Ref{{Node: 2}}}, {Name: "NewA", Kind: vrt.KFunc}, {Name: "NewB", Kind: vrt.KFunc}}, Result: []vrt.Ref{{Node: 0}}, ArgIDs: make([][]int, 3)}\n'
+                         '\t\tvrt.Reset()\n\t\tvar res R\n\t\tif which == 0 {\n\t\t\tres = Inject()\n\t\t} else {\n\t\t\tres = Inject2()\n\t\t}\n\t\tvrt.Check(spec, vrt.Outcome{Result: []int{res.ID}, CleanupNil: true})\n\t}\n}\n'),
+    }
+    specs.append(RawSpec(files, 'provider-set variables declared several per var spec (second and third name used)', family='frontend'))
     # --- C15 zoo: declarations in the injector file must be copied and behave like their originals
     zoo = (
         'type Pair[T any] struct{ A, B T }\n\nfunc (p Pair[T]) First() T { return p.A }\n\n'
